@@ -100,6 +100,9 @@ func (s *session) updateRow(t *table, tx *txn, old *rowRec, newVals Row) (bool, 
 		}
 	}
 	if c, name := s.conflicts(t, tx, newVals, rec.key, old.key); len(c) > 0 {
+		if err := s.lockRow(t, tx, c[0]); err != nil {
+			return false, err
+		}
 		return false, dupErr(t, name, conflictDisplay(t, name, newVals))
 	}
 	if rec.key != old.key {
@@ -313,6 +316,9 @@ func (s *session) insertOne(c *evalCtx, st *ast.InsertStmt, tx *txn, vals Row) (
 		return 1 + int64(len(confl)), true, nil
 	case st.IgnoreErr:
 		return 0, false, nil
+	}
+	if err := s.lockRow(t, tx, confl[0]); err != nil {
+		return 0, false, err // the duplicate is being changed by another transaction: wait, don't report 1062 yet
 	}
 	return 0, false, dupErr(t, name, conflictDisplay(t, name, vals))
 }
